@@ -46,6 +46,8 @@ def main():
                            for k, v in (m.get("applied_to_repo") or {}).items())
         if m.get("obsolete"):
             onrepo = "obsolete on the current tree (equivalent since a later fix; see meta.json)"
+        if m.get("within_band"):
+            onrepo = (onrepo + "; " if onrepo else "") + "NOT reported by design (ambiguity band, see meta.json)"
         checks += f" / on /repo: {onrepo or 'not run'}"
         out.append(f"| {m['id']} | {m.get('property', m['id'][:3])} | {m.get('needs', '')} | "
                    f"{'yes' if m.get('confirmed') else 'NO'} ({m.get('demo_exit_with_change')}/{m.get('demo_exit_without_change')}, "
